@@ -103,7 +103,13 @@ func (w World) IP4() *rapid.Generator[[4]byte] {
 func (w World) IP6() *rapid.Generator[[16]byte] {
 	return rapid.Custom(func(t *rapid.T) [16]byte {
 		var a [16]byte
-		switch rapid.IntRange(0, 8).Draw(t, "ip6Class") {
+		switch rapid.IntRange(0, 10).Draw(t, "ip6Class") {
+		case 9: // IPv4-mapped: sixteen bytes in an IPv6 header all the same
+			a = [16]byte{10: 0xff, 11: 0xff, 12: 192, 13: 168, 14: 0, 15: byte(rapid.IntRange(1, 9).Draw(t, "mapped"))}
+		case 10: // link-local outside fe80::/64, site-local, unique local
+			a[0], a[1] = rapid.SampledFrom([][2]byte{{0xfe, 0x80}, {0xfe, 0xbf}, {0xfe, 0xc0}, {0xfd, 0x00}}).Draw(t, "ll")[0], 0
+			a[1] = rapid.SampledFrom([]byte{0x80, 0xbf, 0xc0, 0x00}).Draw(t, "ll1")
+			a[7], a[15] = byte(rapid.IntRange(0, 1).Draw(t, "subnet")), byte(rapid.IntRange(1, 9).Draw(t, "lla2"))
 		case 0, 1:
 			a[0], a[1] = 0xfe, 0x80
 			a[15] = byte(rapid.IntRange(1, 9).Draw(t, "lla"))
